@@ -17,6 +17,8 @@ DEFAULTS = {
     'ctor_policy_is_none_test': False, 'ctor_defperm_is_none_test': False,
     'static_none_default': '__no_permission_required__',
     'slash_inner_permission': None,
+    'permissive_checks_predicates': True,
+    'forced_require_csrf_kept': False,
     'preserved_attrs': ['__permitted__', '__call_permissive__', '__permission__', '__predicated__', '__predicates__',
                         '__accept__', '__order__', '__text__'],
     'secured_wrappers': ['_secured_view', '_authdebug_view'],
@@ -126,6 +128,9 @@ def extract(src):
             else:
                 perm = None
             vals[key] = (eo.value, perm)
+            rc = kw.get('require_csrf')
+            if not (isinstance(rc, ast.Constant) and rc.value is False and 'require_csrf' in rejected):
+                raise Bad('%s does not force require_csrf=False' % qual)
             # the last statement hands the settings to add_view
             last = fn.body[-1]
             if not (isinstance(last, ast.Return) and isinstance(last.value, ast.Call)
@@ -191,6 +196,28 @@ def extract(src):
         vals['static_none_default'] = hit
     guard('StaticURLInfo.add', static)
 
+    def callview():
+        # _call_view, inside `if not secure:` -- does the code evaluate __predicated__ before using __call_permissive__ ?
+        m = F.Module(src, 'pyramid/view.py')
+        fn = m.find('_call_view')
+        blocks = [n for n in ast.walk(fn) if isinstance(n, ast.If) and isinstance(n.test, ast.UnaryOp)
+                  and isinstance(n.test.op, ast.Not) and isinstance(n.test.operand, ast.Name) and n.test.operand.id == 'secure']
+        if len(blocks) != 1:
+            raise Bad('_call_view: `if not secure:` block')
+        consts = [n.value for n in ast.walk(blocks[0]) if isinstance(n, ast.Constant) and isinstance(n.value, str)]
+        if '__call_permissive__' not in consts:
+            raise Bad('_call_view: __call_permissive__ not used under `if not secure:`')
+        raises = [n for n in ast.walk(blocks[0]) if isinstance(n, ast.Raise)]
+        if '__predicated__' in consts:
+            if len(raises) != 1 or not (isinstance(raises[0].exc, ast.Call) and _name(raises[0].exc.func) == 'PredicateMismatch'):
+                raise Bad('_call_view: predicate test under `if not secure:` does not raise PredicateMismatch')
+            vals['permissive_checks_predicates'] = True
+        else:
+            if raises:
+                raise Bad('_call_view: unexpected raise under `if not secure:`')
+            vals['permissive_checks_predicates'] = False
+    guard('_call_view secure=False branch', callview)
+
     def deriv():
         m = F.Module(src, 'pyramid/viewderivers.py')
         fn = m.find('preserve_view_attrs')
@@ -218,7 +245,8 @@ def emit(vals):
         out.append('Definition %s : Z := (%d)%%Z.\n' % (k, vals[k]))
     for k in ('forced_forbidden', 'forced_notfound', 'forced_excview'):
         out.append('Definition %s : bool * option text := (%s, %s).\n' % (k, F.coq_bool(vals[k][0]), _opt(vals[k][1])))
-    for k in ('ctor_policy_is_none_test', 'ctor_defperm_is_none_test'):
+    out.append('Definition forced_require_csrf : bool := %s.   (* the exception-view directives keep a require_csrf=True ? *)\n' % F.coq_bool(vals['forced_require_csrf_kept']))
+    for k in ('ctor_policy_is_none_test', 'ctor_defperm_is_none_test', 'permissive_checks_predicates'):
         out.append('Definition %s : bool := %s.\n' % (k, F.coq_bool(vals[k])))
     out.append('Definition static_none_default : text := %s.\n' % F.coq_text(vals['static_none_default']))
     out.append('Definition slash_inner_permission : option text := %s.\n' % _opt(vals['slash_inner_permission']))
